@@ -971,6 +971,7 @@ func runC09(r *Report) {
 	c09R3(r)
 	c09R4(r)
 	c09R5(r)
+	c09R5b(r)
 	c09R6(r)
 	c14R2(r.sub("R7"))
 }
@@ -1193,4 +1194,41 @@ func c09R6(r *Report) {
 		}
 	}
 	r.Sentinel("R6", n, 3)
+}
+
+// R5 (continued): a peer reports one dropped block per TorDrop. Every TorDrop value that package peer turns into an
+// event is a literal whose Length is the nominal block size: the torrent's handler refuses a range that leaves the
+// piece ("TorDrop spans pieces") without releasing anything, so an event that was merged or extended across a piece
+// boundary leaves its whole run in flight for good.
+func c09R5b(r *Report) {
+	p := r.P
+	n := 0
+	chunk, okc := configConst(p, "ChunkSize")
+	if !r.Anchor("R5", "config.ChunkSize", okc) {
+		return
+	}
+	for _, f := range p.SrcFuncs() {
+		if relPkg(f) != "peer" {
+			continue
+		}
+		allInstrs(f, func(in ssa.Instruction) {
+			mi, ok := in.(*ssa.MakeInterface)
+			if !ok || typeShort(mi.X.Type()) != "peer.TorDrop" {
+				return
+			}
+			n++
+			r.Fn(f)
+			key := fmt.Sprintf("%s/TorDrop-is-one-block", fname(f))
+			sl := litOf(mi)
+			okLit := false
+			if sl != nil {
+				if k, okk := constInt(sl.Fields["Length"]); okk && k == chunk {
+					okLit = true
+				}
+			}
+			r.Check(okLit, "R5", key, mi.Pos(), "the event is a fresh TorDrop of one nominal block",
+				"a TorDrop event in package peer is not a literal with Length == ChunkSize (it was taken from the queue and extended, or built with another length): a range that crosses a piece boundary is refused by the torrent's handler and none of its blocks is released")
+		})
+	}
+	r.Sentinel("R5.drops", n, 1)
 }
